@@ -233,6 +233,31 @@ structure Session where
 def Session.added! (s : Session) : M Go.Time := if s.isNil then nilPanic else pure s.added
 def Session.accessed! (s : Session) : M Go.Time := if s.isNil then nilPanic else pure s.accessed
 
+/-- the record a Redis hash is scanned into (redis.go); a value, not a pointer: selections cannot panic -/
+structure RedisToken where
+  IDToken : Str := []
+  AccessToken : Str := []
+  AccessTokenExpiresAt : Go.Time := {}
+  RefreshToken : Str := []
+  TimeAdded : Go.Time := {}
+  deriving Repr, BEq, DecidableEq
+def RedisToken.IDToken! (r : RedisToken) : M Str := pure r.IDToken
+def RedisToken.AccessToken! (r : RedisToken) : M Str := pure r.AccessToken
+def RedisToken.AccessTokenExpiresAt! (r : RedisToken) : M Go.Time := pure r.AccessTokenExpiresAt
+def RedisToken.RefreshToken! (r : RedisToken) : M Str := pure r.RefreshToken
+
+structure RedisAuthState where
+  State : Str := []
+  Nonce : Str := []
+  RequestedURL : Str := []
+  CodeVerifier : Str := []
+  TimeAdded : Go.Time := {}
+  deriving Repr, BEq, DecidableEq
+def RedisAuthState.State! (r : RedisAuthState) : M Str := pure r.State
+def RedisAuthState.Nonce! (r : RedisAuthState) : M Str := pure r.Nonce
+def RedisAuthState.RequestedURL! (r : RedisAuthState) : M Str := pure r.RequestedURL
+def RedisAuthState.CodeVerifier! (r : RedisAuthState) : M Str := pure r.CodeVerifier
+
 /-- `memoryStore` without its lock and logger: timeouts (ns), and the map of sessions -/
 structure MemoryStore where
   isNil : Bool := false
